@@ -342,6 +342,40 @@ class ProgGen:
                              "phase": op["phase"], "cpd": True,
                              "protocol": pick(r, ["min-delay", "min-delay", "wait-for-all"])})
 
+    def _motif_retarget(self, op: dict) -> None:
+        """After a retarget: (optionally a short pulse, then) another retarget on the same channel, so that the two
+        target instructions fall within the minimum retarget interval of each other."""
+        r = self.rng
+        n = op["ch"]
+        c = self.chans[n]
+        if self.pending or c["eom"] or len(self.qids) < 2 or r.random() >= self.motifs.get("retarget", 0.0):
+            return
+        if r.random() < 0.5 and self._refs_equal(c):
+            p = gen_pulse(r, c["spec"], phase=self._phase(n), big=False)
+            self.pending.append({"op": "add", "pulse": p, "ch": n})
+        cur = set(c["targets"])
+        t = self._targets_for(c)
+        if set(t) == cur:
+            t = [q for q in self.qids if q not in cur][:1] or t
+        self.pending.append({"op": "target", "qubits": t[0] if len(t) == 1 and r.random() < 0.5 else t, "ch": n})
+
+    def _motif_fall(self, op: dict) -> None:
+        """After a pulse on a local channel: one to three short delays (shorter, together, than typical fall times),
+        then a retarget to other atoms, which has to wait for the rest of the pulse's fall."""
+        r = self.rng
+        n = op["ch"]
+        c = self.chans.get(n)
+        if c is None or self.pending or not c["local"] or c["eom"] or len(self.qids) < 2 \
+                or r.random() >= self.motifs.get("fall", 0.0):
+            return
+        clk, mn = int(c["spec"].get("clock_period", 1)), int(c["spec"].get("min_duration", 1))
+        unit = -(-max(mn, 1) // clk) * clk
+        for _ in range(r.randint(1, 3)):
+            self.pending.append({"op": "delay", "duration": unit * pick(r, [1, 1, 2, 3, 5]), "ch": n})
+        cur = set(c["targets"])
+        t = [q for q in self.qids if q not in cur][:1] or self._targets_for(c)
+        self.pending.append({"op": "target", "qubits": t[0] if r.random() < 0.5 else t, "ch": n})
+
     # -- helpers -------------------------------------------------------------
     def _style(self, op: dict) -> dict:
         if self.styles:
@@ -629,11 +663,13 @@ class ProgGen:
         elif k == "target":
             q = op["qubits"]
             self.chans[op["ch"]]["targets"] = q if isinstance(q, list) else [q]
+            self._motif_retarget(op)
         elif k == "target_index":
             q = op["qubits"]
             self.chans[op["ch"]]["targets"] = [self.qids[i] for i in (q if isinstance(q, list) else [q])]
         elif k == "add":
             self.nonempty = True
+            self._motif_fall(op)
             if "phase" in op["pulse"]:
                 self.last_phase[op["ch"]] = op["pulse"]["phase"]
             if op["pulse"].get("pps"):
